@@ -89,6 +89,10 @@ async def transfer(net, hyg, plan):
         ckw = {k[2:]: v for k, v in t.items() if k.startswith("c_")}
     w = W.World(net, tree=tree, backend=plan["backend"], block_size=bs, **skw)
     await w.start()
+    if plan.get("backend_delay"):
+        # a back end whose operations really suspend (as AsyncPathIO's do): close/write/open take virtual time
+        bd = plan["backend_delay"]
+        w.ctl.delay = lambda op, path, n: bd if op in ("close", "write", "open", "read") else 0
     viol = []
     mon = {"upload_model": 0, "download_model": 0, "second_session": 0, "reply_after_close": 0}
     lat = plan["lat"]
@@ -272,7 +276,8 @@ def gen_cases(tier, seed):
                 "block_size": bs, "kind": rng.choice(CONTENT), "old_kind": rng.choice(CONTENT), "backend": backend,
                 "passive": rng.choice(["epsv", "pasv"]), "passive2": rng.choice(["epsv", "pasv"]),
                 "mss": mss, "lat": [rng.choice([0.0002, 0.001, 0.004]) for _ in range(3)],
-                "reads": [rng.choice([1, 7, 100, 512, 8192, 65536]) for _ in range(rng.randint(1, 3))], "throttle": thr}
+                "reads": [rng.choice([1, 7, 100, 512, 8192, 65536]) for _ in range(rng.randint(1, 3))], "throttle": thr,
+                "backend_delay": rng.choice([0, 0, 0.0007, 0.003]) if bs >= 512 else 0}
         plan["chunks"] = chunks(plan["size"], rng)
         if len(plan["reads"]) and min(plan["reads"]) == 1 and olds + plan["size"] > 5000:
             plan["reads"] = [r if r > 1 else 100 for r in plan["reads"]]
@@ -297,7 +302,8 @@ def gen_cases(tier, seed):
                     plan = {"seed": seed * 13 + j, "op": op, "size": size, "old_size": olds, "offset": offset, "block_size": bs,
                             "kind": CONTENT[j % len(CONTENT)], "old_kind": CONTENT[(j // 3) % len(CONTENT)], "backend": "memory",
                             "passive": "epsv" if j % 2 else "pasv", "passive2": "epsv", "mss": [1460, [7, 64, 536, "rand"][j % 4], 1460],
-                            "lat": [0.0005], "reads": [[100], [512], [65536], [1, 511]][j % 4], "throttle": None}
+                            "lat": [0.0005], "reads": [[100], [512], [65536], [1, 511]][j % 4], "throttle": None,
+                            "backend_delay": [0, 0.002][j % 2]}
                     plan["chunks"] = chunks(size, rng)
                     plans.append(plan)
     per = 10
